@@ -32,9 +32,9 @@ def run(ctx):
         z = int(rng.choice([2, 6, 8, 10, 18, 19, 26])); q = int(rng.integers(1, min(z, 6) + 1))
         edge = abs(dev.rad_phi_uncomp[dev.rad_re_idx] - dev.rad_phi_uncomp[0])
         kT = float(edge / rng.uniform(15, 60))
-        tg = [ebisim.Element.get_ions(z, float(10 ** rng.uniform(3, 7)), kT, q)]
+        tg = [ebisim.Element.get_ions(z, float(10 ** rng.uniform(3, 7)), kT, q, cx=bool(rng.integers(0, 2)))]
         if k % 2:
-            tg.append(ebisim.Element.get_gas(int(rng.choice([2, 10])), float(10 ** rng.uniform(-10, -8)), dev.r_dt))
+            tg.append(ebisim.Element.get_gas(int(rng.choice([2, 10])), float(10 ** rng.uniform(-10, -8)), dev.r_dt, cx=bool(rng.integers(0, 2))))
         opts = limit_options(dr=bool(k % 3 == 0))
         m = AdvancedModel.get(dev, tg, [], opts)
         desc = {"device": dkw, "targets": [("ions", z, float(tg[0].n[q]), kT, q, True)] + ([("gas",)] if k % 2 else []), "gases": [], "options": {kk: vv for kk, vv in opts._asdict().items() if isinstance(vv, bool)}}
@@ -48,7 +48,7 @@ def run(ctx):
             ctx.sample({"device": dkw, "Z": z, "q": q, "kT": kT, "beam_edge_step": float(edge)})
 
 
-def stmt_sim(z, q, dkw, t_max, rng):
+def stmt_sim(z, q, dkw, t_max, rng, cx=True):
     """end-to-end: advanced (limit options, cold ions) vs basic"""
     import ebisim
     from ebisim.simulation import Device, advanced_simulation
@@ -58,11 +58,15 @@ def stmt_sim(z, q, dkw, t_max, rng):
     edge = abs(dev.rad_phi_uncomp[dev.rad_re_idx] - dev.rad_phi_uncomp[0])
     kT = edge / 30
     nl = 1e5
-    inp = {"Z": z, "q": q, "device": dkw, "t_max": t_max}
+    inp = {"Z": z, "q": q, "device": dkw, "t_max": t_max, "cx": cx}
     def add(clause, what):
         out.append({"key": {"clause": clause, "Z": z}, "what": what, "input": inp})
-    tg = ebisim.Element.get_ions(z, nl, kT, q)
-    ra = advanced_simulation(dev, tg, t_max, options=limit_options(), rates=True, verbose=False)
+    tg = ebisim.Element.get_ions(z, nl, kT, q, cx=cx)
+    try:
+        ra = advanced_simulation(dev, tg, t_max, options=limit_options(), rates=True, verbose=False)
+    except Exception as e:
+        add("simulation_raises", f"advanced_simulation in the ideal-overlap limit raised {type(e).__name__}: {str(e)[:120]}")
+        return out
     N0 = np.where(np.arange(z + 1) == q, nl, 0.0)
     rb = ebisim.basic_simulation(z, dev.j, dev.e_kin, t_max, dr_fwhm=None, N_initial=N0, CNI=True, solver_kwargs=dict(rtol=1e-10, atol=1e-12 * nl, dense_output=True))
     from ebisim.simulation._result import Rate
@@ -78,17 +82,20 @@ def stmt_sim(z, q, dkw, t_max, rng):
     return out
 
 
-def stmt_ei_only(z, dkw, rng, gas):
+def stmt_ei_only(z, dkw, rng, gas, cx=True):
     import ebisim
     from ebisim.simulation import Device, advanced_simulation, ModelOptions
     from ebisim.simulation._result import Rate
     out = []
     dev = Device.get(**dkw)
     o = limit_options()._replace(RR=False)
-    tg = ebisim.Element.get_gas(z, 1e-9, dev.r_dt) if gas else ebisim.Element.get_ions(z, 1e6, 5.0, 1)
-    r = advanced_simulation(dev, tg, 1e-3, options=o, rates=True, verbose=False)
+    tg = ebisim.Element.get_gas(z, 1e-9, dev.r_dt, cx=cx) if gas else ebisim.Element.get_ions(z, 1e6, 5.0, 1, cx=cx)
+    inp = {"Z": z, "device": dkw, "gas": gas, "cx": cx}
+    try:
+        r = advanced_simulation(dev, tg, 1e-3, options=o, rates=True, verbose=False)
+    except Exception as e:
+        return [{"key": {"clause": "simulation_raises"}, "what": f"advanced_simulation with ionisation only raised {type(e).__name__}: {str(e)[:120]}", "input": inp}]
     ions = r.N[1:].sum(axis=0)
-    inp = {"Z": z, "device": dkw, "gas": gas}
     if not gas:
         if np.abs(ions - ions[0]).max() > 1e-6 * ions[0]:
             out.append({"key": {"clause": "ei_only_constant"}, "what": f"with ionisation only and pure ion injection the total ion number changes by {np.abs(ions-ions[0]).max():.3e}", "input": inp})
@@ -108,12 +115,14 @@ def stmt_ei_only(z, dkw, rng, gas):
 def search(ctx):
     rng = np.random.default_rng([ctx.seed, 606])
     V = []
-    n = 6 if ctx.thorough else (3 if ctx.failures else 1)
+    n = 6 if ctx.thorough else (4 if ctx.failures else 2)
     for k in range(n):
         dkw = gens.device_kwargs(rng, n_grid=60)
+        if k % 2 == 0 and "j" not in dkw:   # explicit current density (the basic simulation is driven by j alone)
+            dkw["j"] = float(dkw["current"] / (np.pi * dkw["r_e"] ** 2) * 1e-4 * rng.choice([0.3, 2.5]))
         z = int(rng.choice([2, 6, 10, 18])); q = int(rng.integers(1, min(z, 4) + 1))
-        V += stmt_sim(z, q, dkw, float(10 ** rng.uniform(-4, -2)), rng)
-        V += stmt_ei_only(int(rng.choice([2, 6, 10])), dkw, rng, gas=bool(k % 2))
+        V += stmt_sim(z, q, dkw, float(10 ** rng.uniform(-4, -2)), rng, cx=bool(k % 2))
+        V += stmt_ei_only(int(rng.choice([2, 6, 10])), dkw, rng, gas=bool(k % 2), cx=bool((k // 2 + 1) % 2 if n > 2 else (k + 1) % 2))
         ctx.count("simulations", 2)
         if len(V) > 5: break
     return V
@@ -122,9 +131,9 @@ def search(ctx):
 def replay(ctx, data):
     inp = data.get("violation", {}).get("input", {})
     if "t_max" in inp:
-        r = stmt_sim(int(inp["Z"]), int(inp["q"]), inp["device"], float(inp["t_max"]), np.random.default_rng(0))
+        r = stmt_sim(int(inp["Z"]), int(inp["q"]), inp["device"], float(inp["t_max"]), np.random.default_rng(0), cx=bool(inp.get("cx", True)))
     elif "gas" in inp:
-        r = stmt_ei_only(int(inp["Z"]), inp["device"], np.random.default_rng(0), bool(inp["gas"]))
+        r = stmt_ei_only(int(inp["Z"]), inp["device"], np.random.default_rng(0), bool(inp["gas"]), cx=bool(inp.get("cx", True)))
     else:
         return None
     return r[0] if r else None
